@@ -20,13 +20,14 @@
 EXTENDS Compaction, TLC, Json
 
 CONSTANTS Family, N, K, Bufs, Geo, MaxSeg, MaxUsed, SegSize, PlanUnit, States,
-          Defects      \* {} = the corrected design; {"F18a"}, {"F18b"} = the code as it is
+          Defects      \* {} = the corrected design; {"F18a"}, {"F18b"}, {"F18c"} = the code as found
 VARIABLES c,           \* state of the code-shaped machine
           inp,         \* its input (never changes)
           fresh        \* TRUE in initial states only
 
 Tie         == "F18b" \notin Defects
 CursorFixed == "F18a" \notin Defects
+NoChain     == "F18c" \notin Defects
 
 Ids(n) == [i \in 1..n |-> i - 1]
 
@@ -70,7 +71,7 @@ MCInit ==
              inp = [n |-> n, sp |-> sp, buf |-> b] /\ c = CInit(Ids(n), sp, Tie)
      \/ /\ Family = "plan"
         /\ \E segs \in Populations : \E t \in Thrs :
-             inp = [segs |-> segs, thr |-> t] /\ c = PInit(segs, t[1], t[2], SegSize, CursorFixed)
+             inp = [segs |-> segs, thr |-> t] /\ c = PInit(segs, t[1], t[2], SegSize, CursorFixed, NoChain)
 
 MCNext ==
   /\ c.pc # "done"
@@ -86,6 +87,8 @@ SegFinal == (Family # "plan" /\ c.pc = "done") =>
 SegBufIndep == (Family # "plan" /\ c.pc = "done") =>
               LET r == CompactImpl(Ids(inp.n), inp.sp, inp.n + 1, Tie) IN r.file = c.file /\ r.saved = c.saved /\ r.ok = c.ok
 PlanSafe == Family = "plan" => PlanOK(c.plan, inp.segs, SegSize)
+\* beyond the statement (F18c): no segment is both emptied and filled
+PlanNoChain == Family = "plan" => ~Chained(c.plan)
 
 \* ---- program emission -------------------------------------------------------
 Scale(segs) == [i \in 1..Len(segs) |-> <<segs[i][1], segs[i][2] * PlanUnit>>]
